@@ -3,6 +3,7 @@
 package main
 
 import (
+	"os"
 	"net"
 	"encoding/base64"
 	"fmt"
@@ -56,6 +57,7 @@ func vIdentSXopt(i *vIdent) vsx {
 }
 
 func driveC01(t *testing.T, out *vEmitter) {
+	vC01HtpasswdReload(t, out)
 	vKeys()
 	htp := vWriteFile("c01-htpasswd", "htuser:{SHA}"+vB64Std(vSHA1([]byte("htpass")))+"\n")
 	variants := []vC01Variant{
@@ -180,6 +182,9 @@ func driveC01(t *testing.T, out *vEmitter) {
 			}
 			eps := []ep{{"/", "proxy"}, {"/nested/path?q=1", "proxy"}, {"/api/x", "proxy"}, {"/public/x", "proxy"}, {"/oauth2/auth", "authonly"},
 				{"/oauth2/auth?allowed_groups=admins", "authonly"}, {"/oauth2/auth?allowed_groups=nobody", "authonly"}, {"/oauth2/userinfo", "userinfo"},
+				// lists in unusual but legal spellings: empty elements, empty value
+				{"/oauth2/auth?allowed_emails=boss@example.com,", "authonly"}, {"/oauth2/auth?allowed_emails=,alice@example.com", "authonly"},
+				{"/oauth2/auth?allowed_emails=", "authonly"}, {"/oauth2/auth?allowed_groups=,", "authonly"}, {"/oauth2/auth?allowed_groups=nobody,,", "authonly"},
 				{"/oauth2/sign_in", "other"}, {"/robots.txt", "other"}, {"/ping", "other"}}
 			// endpoints that end a session (sign_in clears it) run in a second pass
 			for i := range creds {
@@ -215,6 +220,74 @@ func driveC01(t *testing.T, out *vEmitter) {
 				}
 			}
 			}
+		}
+	}
+}
+
+// vC01HtpasswdReload: a basic credential verifies against the CURRENT contents of the htpasswd file, however the
+// operator replaced it (rewritten in place, or a new file renamed over it as editors, `sed -i`, `mv` and ConfigMap
+// updates do).
+func vC01HtpasswdReload(t *testing.T, out *vEmitter) {
+	sha := func(pw string) string { return "{SHA}" + base64.StdEncoding.EncodeToString(vSHA1([]byte(pw))) }
+	path := vWriteFile("c01-reload-htpasswd", "alice:"+sha("pw-a")+"\nbob:"+sha("pw-b")+"\n")
+	e := vNewEnv(t, vEnvCfg{oidc: true, mod: func(o *options.Options) {
+		o.HtpasswdFile = path
+		o.EmailDomains = []string{"*"}
+	}})
+	type cred struct{ user, pw string }
+	type step struct {
+		label, content string
+		rename         bool
+		valid          map[cred]bool
+	}
+	all := []cred{{"alice", "pw-a"}, {"bob", "pw-b"}, {"bob", "pw-b2"}, {"carol", "pw-c"}}
+	steps := []step{
+		{"initial", "", false, map[cred]bool{{"alice", "pw-a"}: true, {"bob", "pw-b"}: true}},
+		{"bob-removed/rename", "alice:" + sha("pw-a") + "\n", true, map[cred]bool{{"alice", "pw-a"}: true}},
+		{"bob-back/in-place", "alice:" + sha("pw-a") + "\nbob:" + sha("pw-b") + "\n", false, map[cred]bool{{"alice", "pw-a"}: true, {"bob", "pw-b"}: true}},
+		{"bob-rotated/rename", "alice:" + sha("pw-a") + "\nbob:" + sha("pw-b2") + "\n", true, map[cred]bool{{"alice", "pw-a"}: true, {"bob", "pw-b2"}: true}},
+		{"carol-added-alice-removed/rename", "carol:" + sha("pw-c") + "\nbob:" + sha("pw-b2") + "\n", true, map[cred]bool{{"carol", "pw-c"}: true, {"bob", "pw-b2"}: true}},
+		{"only-carol/in-place", "carol:" + sha("pw-c") + "\n", false, map[cred]bool{{"carol", "pw-c"}: true}},
+	}
+	served := func(c cred) bool {
+		rq, _ := vRawRequest(vBuildRaw("GET", "/", "app.example.com", [][2]string{{"Authorization", "Basic " + base64.StdEncoding.EncodeToString([]byte(c.user+":"+c.pw))}}, ""))
+		rq.RemoteAddr = "192.0.2.10:40000"
+		return e.serve(rq).Hit()
+	}
+	for si, st := range steps {
+		if si > 0 {
+			if st.rename {
+				tmp := path + ".new"
+				if err := os.WriteFile(tmp, []byte(st.content), 0o600); err != nil {
+					t.Fatal(err)
+				}
+				if err := os.Rename(tmp, path); err != nil {
+					t.Fatal(err)
+				}
+			} else if err := os.WriteFile(path, []byte(st.content), 0o600); err != nil {
+				t.Fatal(err)
+			}
+		}
+		// the reload is asynchronous: give it up to 8 s to take effect
+		deadline := time.Now().Add(8 * time.Second)
+		var wrong []string
+		for {
+			wrong = wrong[:0]
+			for _, c := range all {
+				if served(c) != st.valid[c] {
+					wrong = append(wrong, c.user+":"+c.pw)
+				}
+			}
+			if len(wrong) == 0 || time.Now().After(deadline) {
+				break
+			}
+			time.Sleep(40 * time.Millisecond)
+		}
+		out.Obs("htpasswd-reload", true, vL(vY(strings.ReplaceAll(st.label, "/", "-")), vI(int64(len(wrong)))))
+		out.Stat("c01_htpasswd_reload_steps", 1)
+		if len(wrong) > 0 {
+			out.Violation("access/stale-credential-file", "basic credentials are not verified against the current contents of the htpasswd file (8 s after it was replaced)",
+				map[string]interface{}{"file_version": st.label, "replaced_by_rename": st.rename, "wrong_decisions_for": wrong})
 		}
 	}
 }
@@ -309,9 +382,28 @@ func vC01Case(out *vEmitter, e *vEnv, v vC01Variant, redis bool, c vCred, target
 		}
 		authorised = emailOK && groupOK
 	}
+	var ve []string
+	if i := strings.Index(target, "allowed_emails="); i >= 0 {
+		ve = []string{target[i+len("allowed_emails="):]}
+	}
 	if kind == "authonly" && vouched != nil {
 		if strings.Contains(target, "allowed_groups=nobody") {
 			authorised = false
+		}
+		if len(ve) > 0 {
+			// the session's e-mail must be one of the non-empty elements (no constraint if there is none)
+			listed, any := false, false
+			for _, it := range strings.Split(ve[0], ",") {
+				if it != "" {
+					any = true
+					if it == vouched.email {
+						listed = true
+					}
+				}
+			}
+			if any && !listed {
+				authorised = false
+			}
 		}
 		if strings.Contains(target, "allowed_groups=admins") {
 			has := false
@@ -334,7 +426,7 @@ func vC01Case(out *vEmitter, e *vEnv, v vC01Variant, redis bool, c vCred, target
 	_ = cleared
 	out.Case("serve/"+v.name, true, vL(vY(class)),
 		vL("proxy_serve", vY(epSym), vBool(v.skipButton), vBool(v.forceJSON), vBool(bypass), vStrs(v.emailDomains), vStrs(v.allowedGroups),
-			vIdentSXopt(c.bearer), vIdentSXopt(c.basic), vIdentSXopt(c.stored), vBool(ajax), vBool(api), vStrs(vg),
+			vIdentSXopt(c.bearer), vIdentSXopt(c.basic), vIdentSXopt(c.stored), vBool(ajax), vBool(api), vStrs(vg), vStrs(ve),
 			vBool(redis && c.cookie != "" && c.stored == nil && c.label != "ticket-for-deleted-key")))
 	// the whole composition on the request as sent (cookie store): bypass decision from the configured rules and the
 	// peer address, the stored credential from the presented cookies through the signed-cookie model
@@ -410,7 +502,7 @@ func vC01Case(out *vEmitter, e *vEnv, v vC01Variant, redis bool, c vCred, target
 				vBool(v.preflight), vL(routesSX...), vL(mt...), vL(vL(vS(req.URL.RequestURI()), vSome(vS(req.URL.Path)))), vL(netsSX...), vL(ipt...), vBool(false),
 				vL(vS(req.Method), vS(req.URL.RequestURI()), vS(""), vBool(false), vS(remote), vS("")),
 				vY(epSym), vBool(v.skipButton), vBool(v.forceJSON), vBool(true), vBool(true), vStrs(v.emailDomains), vStrs(v.allowedGroups),
-				vIdentSXopt(c.bearer), vIdentSXopt(c.basic), vBool(ajax), vBool(api), vStrs(vg)))
+				vIdentSXopt(c.bearer), vIdentSXopt(c.basic), vBool(ajax), vBool(api), vStrs(vg), vStrs(ve)))
 	}
 	if discloses {
 		out.Stat("disclosing_responses", 1)
